@@ -67,5 +67,6 @@ Emit ==
                            dsafe |-> ~rl.bigexp,
                            pacc |-> PrefixOk(bytes, FALSE),
                            plax |-> PrefixOk(bytes, TRUE),
+                           pamb |-> PrefixAmbiguous(bytes, TRUE),
                            pv |-> IF PrefixOk(bytes, TRUE) THEN PRun(bytes, TRUE).root ELSE NoVal])>>)
 =============================================================================
